@@ -536,16 +536,15 @@ theorem sessG_fresh_get (c : Cfg) {Dom : Bytes → Prop} {s : St} {T0 t : Trie} 
 theorem fetchMem_ok (e : Env) (T0 : Trie) (hdb : DbOk e T0) (full : Bytes) (fk : Nibs)
     (hfk : fk = toNibs full) (dv : DVal) (hv : OkV e.ver e.H T0 fk dv) :
     fetchMem e full dv = some (absV T0 fk dv) := by
+  subst hfk
   cases dv with
   | inl x => rfl
   | fresh x => rfl
   | ref h =>
     obtain ⟨v, hl, hm, rfl⟩ := hv
-    have := stored_value T0 [] fk v hdb.stored hl hm
-    rw [List.nil_append, hfk, rowKey, prefixBytes_toNibs] at this
-    simp only [fetchMem, absV, this]
-    rw [hfk] at hl
-    simp [hl]
+    have := stored_value T0 [] (toNibs full) v hdb.stored hl hm
+    rw [List.nil_append, rowKey, prefixBytes_toNibs] at this
+    simp [fetchMem, absV, this, hl]
 
 /-- the in-memory walk of `TrieDB.lookup` (continued by `TrieLookup` below the first persisted
     handle) returns the `lookup` of the trie the handle tree stands for -/
@@ -584,19 +583,31 @@ theorem lookupMem_ok (e : Env) (T0 : Trie) (hdb : DbOk e T0) (full : Bytes) (hd 
   | branch c pk dvo cs ih =>
     intro pre key hfull hok
     obtain ⟨hvals, hkids, _⟩ := hok
-    simp only [lookupMem, abs]
-    rcases key_cases pk key with rfl | ⟨i, rest, rfl⟩ | hoff
-    · simp only [if_true, lookup_branch_self]
-      cases dvo with
-      | none => rfl
-      | some dv =>
-        simp only [Option.map_some]
+    have hchild : ∀ i rest, key = pk ++ i :: rest →
+        lookupMem e full (cs i) (pre ++ pk ++ [i]) rest =
+          lookup (abs T0 (cs i) (pre ++ pk ++ [i])) rest := by
+      intro i rest hk
+      exact ih i _ rest (by rw [← hfull, hk]; simp) (hkids i)
+    cases dvo with
+    | none =>
+      simp only [lookupMem, abs, Option.map_none]
+      rcases key_cases pk key with rfl | ⟨i, rest, rfl⟩ | hoff
+      · simp [lookup_branch_self]
+      · have hne : ¬ (pk = pk ++ i :: rest) := self_ne_append_cons pk i rest
+        simp only [hne, if_false, isPrefixOf_append_self, if_true, drop_len_append, lookup_branch_child]
+        exact hchild i rest rfl
+      · have hne : ¬ pk = key := fun x => (isPrefixOf_false_ne hoff) x.symm
+        simp [hne, hoff, lookup_branch_off _ _ _ _ hoff]
+    | some dv =>
+      simp only [lookupMem, abs, Option.map_some]
+      rcases key_cases pk key with rfl | ⟨i, rest, rfl⟩ | hoff
+      · simp only [if_true, lookup_branch_self]
         exact fetchMem_ok e T0 hdb full _ hfull dv (hvals dv rfl)
-    · have hne : ¬ (pk = pk ++ i :: rest) := self_ne_append_cons pk i rest
-      simp only [hne, if_false, isPrefixOf_append_self, if_true, drop_len_append, lookup_branch_child]
-      exact ih i _ rest (by rw [← hfull]; simp) (hkids i)
-    · have hne : ¬ pk = key := fun x => (isPrefixOf_false_ne hoff) x.symm
-      simp [hne, hoff, lookup_branch_off _ _ _ _ hoff]
+      · have hne : ¬ (pk = pk ++ i :: rest) := self_ne_append_cons pk i rest
+        simp only [hne, if_false, isPrefixOf_append_self, if_true, drop_len_append, lookup_branch_child]
+        exact hchild i rest rfl
+      · have hne : ¬ pk = key := fun x => (isPrefixOf_false_ne hoff) x.symm
+        simp [hne, hoff, lookup_branch_off _ _ _ _ hoff]
 
 /-- `Get` on a live instance agrees with the trie it stands for -/
 theorem sessG_get (c : Cfg) {Dom : Bytes → Prop} {s : St} {T0 t : Trie} (h : SessG c Dom s T0 t)
